@@ -105,6 +105,7 @@ def build(unit, repo=None, out_dir=None, canary=False):
     body = []
     functions = []
     consts_done = set()
+    free_consts = {}
     srcs = {}
     for e in entries:
         path = os.path.join(repo, e["src"])
@@ -172,6 +173,20 @@ def build(unit, repo=None, out_dir=None, canary=False):
                 consts_done.add((e["implheader"], cname))
                 rep.append({"rule": "R11", "before": "", "after": ctext_, "count": 1})
                 new = ctext_ + "\n" + new
+        # R12 (module constants): an upper-case name used bare in the function for which the same source file has a module-level
+        # `const NAME: T = ..;` item gets that item emitted once at the top of the generated verus! block
+        for cname in sorted(set(re.findall(r"(?<![:.\w])([A-Z][A-Z0-9_]{2,})\b(?!\s*(?:::|\(|!))", text))):
+            if cname in free_consts:
+                continue
+            try:
+                cs, ce = X.find_item(src, "const", cname, within=None)
+            except X.ExtractError:
+                continue
+            ctext_ = src[cs:ce]
+            if not re.match(r"\s*pub\b", ctext_):
+                ctext_ = "pub " + ctext_.lstrip()
+            free_consts[cname] = ctext_
+            rep.append({"rule": "R12", "before": "", "after": ctext_, "count": 1})
         for pref in unit_cfg.get("path_strip", []):
             if pref in new:
                 rep.append({"rule": "R9", "before": pref, "after": "", "count": new.count(pref)})
@@ -188,7 +203,7 @@ def build(unit, repo=None, out_dir=None, canary=False):
         functions.append({"name": e["name"], "src": e["src"], "bytes": [s, en], "sha256": X.sha(text), "rewrites": rep,
                           "props": e["props"], "ensures": [n for n, _ in c["ensures"]], "ensures_props": e["ensures_props"],
                           "loops": sorted(e["loops"].keys()), "text": new, "within": e.get("within"), "canary_mode": e.get("canary", ""), "canary_on": canary_on, "stub": e.get("stub"), "implheader": e.get("implheader")})
-    meta = {"unit": unit, "items": items, "functions": functions, "preamble": pre, "canary": canary}
+    meta = {"unit": unit, "items": items, "functions": functions, "preamble": pre, "canary": canary, "free_consts": free_consts}
     return meta
 
 
@@ -196,6 +211,9 @@ def emit(meta, gen_path, wrap_impls=None):
     """Write the generated file and compute the line map."""
     lines = meta["preamble"].split("\n")
     text = meta["preamble"].rstrip("\n") + "\n\nverus! {\n\n"
+    for cname_ in sorted(meta.get("free_consts", {})):
+        text += meta["free_consts"][cname_].rstrip("\n") + "\n"
+
     linemap = []
     # named lemma obligations: a preamble proof fn preceded by a `//@@LEMMA <props>` line (ends at the next line that is `}`)
     lemmas = []
